@@ -139,6 +139,16 @@ CLAIMED['C08'] = (
     'wrappers; every tree exhausted.',
     'int parameters only; <= 3 generator steps; coroutines stepped manually (no event loop)',
     'symbolic execution of the real code (CrossHair primitives + z3), differential against Python binding, path-tree exhaustion, concrete replay')
+CLAIMED['C19'] = (
+    'Symbolic execution of the real code with purity assertions: (a) a structural snapshot (identity, length, keys, element '
+    'identity of every reachable container) of solver-chosen nested inputs must be unchanged after the parse, on success and on '
+    'failure, for 16 container / data-class types under solver-picked flags and invalid_* policies (explored); (b) for every '
+    'mutable default kind (list, nested list, dict, nested dict, set, tuple of mutables, default_factory, force_default) a '
+    'solver-picked in-place mutation at a solver-picked nesting level of one instance / call leaves an earlier instance, a later '
+    'instance and the declared default unchanged (exhausted); (c) a declaration that has served 0..2 solver-picked earlier '
+    'parses gives the same outcome as a fresh identical declaration (exhausted).',
+    'input obligations are non-exhaustive (stated); literals come from stated vocabularies',
+    'symbolic execution of the real code (CrossHair primitives + z3), metamorphic / differential assertions, concrete replay')
 NOT_APPLICABLE = {}
 
 def main():
